@@ -25,7 +25,12 @@ KNOWN = set()
 
 SBATCH = r'''#!/bin/sh
 D=__DIR__
-while ! mkdir "$D/lock" 2>/dev/null; do sleep 0.01; done
+n=0
+while ! mkdir "$D/lock" 2>/dev/null; do
+  [ -d "$D" ] || exit 1          # the driver removed the state directory: this history is over
+  n=$((n+1)); [ $n -gt 3000 ] && exit 1
+  sleep 0.01
+done
 n=$(cat "$D/next"); echo $((n+1)) > "$D/next"
 cat > "$D/scripts/$n"
 echo PENDING > "$D/queue/$n.tmp"; mv "$D/queue/$n.tmp" "$D/queue/$n"
@@ -179,9 +184,12 @@ async def history(with_undeploy):
                 bad = {"failure": "undeploy did not cancel exactly the jobs still queued", "still_queued_after": queued, "registered": scheduled, "cancelled": cancelled}
         else:
             try:
-                await asyncio.wait_for(asyncio.gather(*tasks), 30)
+                await asyncio.wait_for(asyncio.gather(*tasks), 120)
             except asyncio.TimeoutError:
-                bad = {"failure": "a run() call did not return within 30 s although every job left the queue after at most 1.3 s"}
+                bad = {"failure": "a run() call did not return within 120 s although every job leaves the queue after at most 1.3 s",
+                       "still_queued": sorted(os.listdir(fs.p("queue"))), "registered": sorted(slurm._scheduled_jobs), "left_queue": sorted(fs.left),
+                       "scripts": sorted(os.listdir(fs.p("scripts"))), "tasks_done": [t.done() for t in tasks],
+                       "jobs": {m: [round(x, 2) if isinstance(x, float) else x for x in p] for m, p in plans.items()}}
             if problems and not bad:
                 bad = problems[0]
                 bad["jobs"] = {m: [round(x, 2) if isinstance(x, float) else x for x in p] for m, p in plans.items()}
